@@ -35,38 +35,72 @@ def integer_batch(spec, cfg, rng):
     return None
 
 
-def measure(spec: Spec, cfg: dict, st: str, mag: int, warm, bs):
-    """the property's oracle on one case: state `st` of a metric warmed by `warm` is replaced by `mag` through load_state_dict,
-    `bs` are applied to it and to a fresh instance warmed the same way; the accumulator must equal injected + the fresh
-    instance's increase, exactly.  returns a string (reason the case is outside the comparison) or a dict with
-    got / want / delta / inj / dtype / ok.  Used by the sweep and by replay()."""
+def _as64(v):
+    return v.to(torch.float64) if isinstance(v, torch.Tensor) else torch.tensor(float(v), dtype=torch.float64)
+
+
+def measure(spec: Spec, cfg: dict, st: str, mag: int, warm, bs, via: str = "load"):
+    """the property's oracle on one case.  State `st` (tensor or python int) of a metric warmed by `warm` is set to `mag`
+    and must afterwards grow by exactly the statistics of what is added:
+      via="load"  : injected through load_state_dict, then `bs` are applied; want = injected + increase of a fresh twin;
+      via="reset" : the metric is reset() first and re-warmed, the value is written IN PLACE (the dtype reset() left
+                    is kept), then `bs` are applied — a reset that re-creates accumulators in a narrower dtype shows here;
+      via="merge" : the injected metric is a merge SOURCE of a twin that saw warm + `bs`; want = twin's value + injected —
+                    a merge that caps or re-casts the incoming totals shows here.
+    returns a string (reason the case is outside the comparison) or a dict got / want / delta / inj / dtype / ok."""
     m = new_metric(spec, cfg)
     if not hasattr(m, st):
         return "no such state"
     warm.apply(m)                       # establishes state shapes
+    if via == "reset":
+        m.reset()
+        warm.apply(m)
     base = m.state_dict()
     cur = base[st]
-    if not isinstance(cur, torch.Tensor):
-        return "state is not a tensor"
-    inj = torch.full_like(cur, float(mag)) if cur.is_floating_point() else torch.full_like(cur, mag)
-    if inj.to(torch.float64).max().item() != float(mag):
-        return "magnitude not representable in this dtype at all"
-    base[st] = inj
-    m.load_state_dict(base)
+    if isinstance(cur, bool) or not isinstance(cur, (torch.Tensor, int)):
+        return "state is neither a tensor nor an int"
+    if isinstance(cur, torch.Tensor):
+        inj = torch.full_like(cur, float(mag)) if cur.is_floating_point() else torch.full_like(cur, mag)
+        if inj.to(torch.float64).max().item() != float(mag):
+            return "magnitude not representable in this dtype at all"
+        dtype = cur.dtype
+    else:
+        inj, dtype = mag, "python-int"
+    if via == "reset" and isinstance(cur, torch.Tensor):
+        with torch.inference_mode():
+            getattr(m, st).copy_(inj)   # in place: keeps whatever dtype reset() + update left there
+    else:
+        base[st] = inj
+        m.load_state_dict(base)
     fresh = new_metric(spec, cfg)
     warm.apply(fresh)
-    f0 = getattr(fresh, st).to(torch.float64).clone()
-    for b in bs:
-        if try_update(m, b) is not None or try_update(fresh, b) is not None:
-            return "an update raised"
-    delta = getattr(fresh, st).to(torch.float64) - f0
-    got = getattr(m, st).to(torch.float64)
-    want = inj.to(torch.float64) + delta
+    f0 = _as64(getattr(fresh, st)).clone()
+    if via == "merge":
+        for b in bs:
+            if try_update(fresh, b) is not None:
+                return "an update raised"
+        before = _as64(getattr(fresh, st)).clone()
+        delta = before - f0
+        try:
+            fresh.merge_state([m])
+        except Exception as e:  # noqa: BLE001
+            return f"merge raised {type(e).__name__}"
+        got = _as64(getattr(fresh, st))
+        want = before + _as64(inj)
+    else:
+        for b in bs:
+            if try_update(m, b) is not None or try_update(fresh, b) is not None:
+                return "an update raised"
+        delta = _as64(getattr(fresh, st)) - f0
+        got = _as64(getattr(m, st))
+        want = _as64(inj) + delta
     if not torch.equal(delta, delta.round()):
         # a sum of non-integer sample VALUES (Mean.weighted_sum, Sum, MSE's squared error …) is not a count:
         # injected + delta need not be representable at all; rounding of value sums is C07's subject, not C19's
         return "skipped:non-integer-statistic"
-    return {"got": got, "want": want, "delta": delta, "inj": inj, "dtype": cur.dtype, "ok": torch.equal(got, want)}
+    if got.shape != want.shape:
+        return "skipped:state-shape-changed"
+    return {"got": got, "want": want, "delta": delta, "inj": inj, "dtype": dtype, "ok": torch.equal(got, want)}
 
 
 def one(rep: Report, rng: Rng, spec: Spec, cfg0: dict, st: str, mag: int):
@@ -78,7 +112,9 @@ def one(rep: Report, rng: Rng, spec: Spec, cfg0: dict, st: str, mag: int):
     if any(b is None for b in bs):
         return
     warm = integer_batch(spec, cfg, rng)
-    r = measure(spec, cfg, st, mag, warm, bs)
+    via = rng.choice(["load", "load", "reset", "merge"])
+    rep.count(f"via:{via}")
+    r = measure(spec, cfg, st, mag, warm, bs, via)
     if isinstance(r, str):
         if r.startswith("skipped:"):
             rep.count(r)
@@ -91,14 +127,14 @@ def one(rep: Report, rng: Rng, spec: Spec, cfg0: dict, st: str, mag: int):
     if not r["ok"]:
         kind = str(dtype).replace("torch.", "")
         rep.violation(f"C19|{spec.name}|{st}|{kind}-saturates",
-                      f"{spec.name}.{st} ({kind}) injected {mag}, statistics of the added samples {delta.reshape(-1).tolist()[:6]}: accumulator is {got.reshape(-1).tolist()[:6]} instead of {want.reshape(-1).tolist()[:6]}",
-                      {"class": spec.name, "cfg": public_cfg(cfg), "state": st, "injected": mag, "warm": warm.describe(), "batches": [b.describe() for b in bs],
+                      f"{spec.name}.{st} ({kind}) injected {mag} (via {via}), statistics of the added samples {delta.reshape(-1).tolist()[:6]}: accumulator is {got.reshape(-1).tolist()[:6]} instead of {want.reshape(-1).tolist()[:6]}",
+                      {"class": spec.name, "cfg": public_cfg(cfg), "state": st, "injected": mag, "via": via, "warm": warm.describe(), "batches": [b.describe() for b in bs],
                        "got": got.reshape(-1).tolist(), "want": want.reshape(-1).tolist()})
 
 
 def sweep(rep, rng, reps, deadline):
     for spec in SPECS:
-        if not spec.count_states or spec.kind == "window":
+        if not spec.count_states:
             continue
         for cfg0 in spec.configs:
             for st in spec.count_states:
@@ -131,7 +167,7 @@ def replay(payload) -> bool:
     # payloads written before the warm-up batch was recorded: it only establishes the state shapes (its own statistics
     # are replaced by the injected value and subtracted on the fresh side), any recorded batch serves
     warm = Batch.from_describe(rp["warm"]) if rp.get("warm") else bs[0]
-    r = measure(spec, cfg, rp["state"], int(rp["injected"]), warm, bs)
+    r = measure(spec, cfg, rp["state"], int(rp["injected"]), warm, bs, rp.get("via", "load"))
     if isinstance(r, str):
         raise ValueError(f"nothing to replay: the case is outside the comparison on this tree ({r})")
     if not r["ok"]:
